@@ -316,6 +316,8 @@ theorem bccase_rr {a0 : Acc} {f : Frag} {ctrl : AppCtrl} {func : Nat} {objs : Ex
       (fun s s' h => by simp only [keepCtl2, Prod.mk.injEq] at h; exact h.2.1) not_app_clear
   | freeze hs k _ _ _ _ =>
     exact RR.ofFrameP (handleFreeze_frame _ _ _ _) (fun s s' h => by simp only [id] at h; rw [h]) not_app_clear
+  | freezeAt hs _ _ =>
+    exact RR.ofFrameP (handleFreezeAtTime_frame _ _ _) (fun s s' h => by simp only [id] at h; rw [h]) not_app_clear
   | record _ => exact RR.keep rfl [] (by simp) (by simp)
   | enable hs _ _ =>
     exact RR.ofFrameP (handleEnableDisable_frame _ _ _ _)
